@@ -35,7 +35,7 @@ if os.path.exists(_kf):
 COMMON_ASSUMPTIONS = ["A1", "A6", "A7"]
 
 _TB = ["z3 SMT solver (cvc5 for string queries z3 leaves open)", "pyvc VC generator (/verif/pyvc)", "CPython ast module"]
-from .bounded import query_enum_check, roundtrip_check, gc_check, roles_check  # noqa: E402
+from .bounded import query_enum_check, roundtrip_check, gc_check, roles_check, atomic_check  # noqa: E402
 from .census import census_check  # noqa: E402
 
 _TBB = ["CPython executing the real functions", "in-memory lmdb/msgpack stand-ins (/verif/stubs)", "sqlite3", "the NIP-01 oracle in /verif/bounded/query_enum.py"]
@@ -51,7 +51,7 @@ PROPERTIES = {
     "C03": {"level": "proof", "trusted_base": _TB, "assumptions": ["EV", "SQL", "JSON"], "extra_checks": [census_check("C03")]},
     "C05": {"level": "proof", "trusted_base": _TB, "assumptions": ["EV", "A4", "ENUM"], "extra_checks": [query_enum_check("C05")]},
     "C06": {"level": "proof", "trusted_base": _TB, "assumptions": ["EV", "SQL", "WS", "JSON", "A4"]},
-    "C07": {"level": "proof", "trusted_base": _TB, "assumptions": ["EV", "SQL"]},
+    "C07": {"level": "proof", "trusted_base": _TB, "assumptions": ["EV", "SQL", "ATOMIC"], "extra_checks": [atomic_check("C07")]},
     "C08": {"level": "proof", "trusted_base": _TB, "assumptions": ["EV", "SQL"]},
     "C09": {"level": "proof", "trusted_base": _TB, "assumptions": ["EV", "SQL"]},
     "C13": {"level": "proof", "trusted_base": _TB, "assumptions": ["WS", "JSON", "A4"]},
@@ -149,6 +149,15 @@ def replay(prop, path):
         env = dict(os.environ)
         env["PYTHONPATH"] = ROOT
         p = subprocess.run([sys.executable, os.path.join(ROOT, "bounded", "roles_enum.py")], env=env, capture_output=True, text=True)
+        print(p.stdout[-2000:])
+        if "FAIL " in p.stdout:
+            print("VIOLATION property=%s replay=%s" % (prop, path))
+            return 1
+        return 0
+    if rp["unit"] == "bounded:engine-error-injection":
+        env = dict(os.environ)
+        env["PYTHONPATH"] = ROOT
+        p = subprocess.run([sys.executable, os.path.join(ROOT, "bounded", "atomic_enum.py")], env=env, capture_output=True, text=True)
         print(p.stdout[-2000:])
         if "FAIL " in p.stdout:
             print("VIOLATION property=%s replay=%s" % (prop, path))
